@@ -106,17 +106,10 @@ fn go<T: Elem + Clone>(ops: &Rows, mon: &mut Mon) -> Rows {
                 match quiet(|| v.clone()) {
                     Ok(c) => { let old = std::mem::replace(&mut v, foreignize(c)); checked_drop(old, mon, k); row = vec![5]; }
                     Err(_) => {
+                        // the model's VCloneP step: the source is untouched, the result row is [5, 9], and the destructor row (checked below against
+                        // std::Vec and printed for the model) holds exactly the clones made before the poisoned element
                         if (v.as_ptr() as usize, v.len(), v.capacity()) != snap_before || contents(&v) != before { mon.fail(format!("op{} a clone that panicked modified its source", k)); }
-                        // the unwinding destroyed exactly the clones made before the poisoned element
-                        let j = before.iter().position(|x| T::clone_panics(*x)).unwrap_or(0);
-                        let (mut got, mut want) = (take_drops(), before[..j].to_vec());
-                        got.sort(); want.sort();
-                        if got != want { mon.fail(format!("op{} a clone that panicked at element {} destroyed {:?}, std::Vec destroys the {} clones made so far {:?}", k, j, got, j, want)); }
-                        // complete the operation by hand (same result as a clone that does not panic), so that the history continues as the model's
-                        let fresh: Vec<T> = before.iter().map(|x| T::mk(*x)).collect();
-                        let old = std::mem::replace(&mut v, foreignize(CVec::from(fresh)));
-                        checked_drop(old, mon, k);
-                        row = vec![5];
+                        row = vec![5, 9];
                     }
                 }
             }
@@ -154,7 +147,8 @@ fn go<T: Elem + Clone>(ops: &Rows, mon: &mut Mon) -> Rows {
         let ran = take_drops();
         let mut want: Vec<i64> = match op[0] {
             2 => if (op[1] as usize) <= before.len() { vec![] } else { vec![T::norm(op[2])] },      // rejected insert: the argument is destroyed by the unwinding
-            5 | 7 => before.clone(),                                                                   // the replaced vector goes away with all its elements
+            5 => match before.iter().position(|x| T::clone_panics(*x)) { Some(j) => before[..j].to_vec(), None => before.clone() },   // a clone that panics at element j destroys the j clones it made
+            7 => before.clone(),                                                                   // the replaced vector goes away with all its elements
             6 => if (op[1] as usize) < before.len() { vec![before[op[1] as usize]] } else { vec![T::norm(op[2])] },
             _ => vec![],
         };
